@@ -527,6 +527,24 @@ fn gen_text(r: &mut Rng, cat: Cat, eol: Eol, out_kind: &mut &'static str) -> Str
         for _ in 0..n {
             lines.push(uni(r, cat, 12));
         }
+    } else if kind == 5 || kind == 6 {
+        // runs of look-alike lines: equal in the relative token encoding
+        *out_kind = "doc-runs";
+        let deco = if r.chance(1, 3) { format!("(* {} *) ", uni1(r, cat)) } else { String::new() };
+        let names = ["a", "b", "c", "d", "e", "f", "g"];
+        let nd = 3 + r.below(5) as usize;
+        let ns = 3 + r.below(5) as usize;
+        lines.push("PROGRAM Runs".into());
+        lines.push("VAR".into());
+        for i in 0..nd {
+            lines.push(format!("    {deco}{} : INT;", names[i % names.len()]));
+        }
+        lines.push("END_VAR".into());
+        let digit = r.below(10);
+        for i in 0..ns {
+            lines.push(format!("{deco}{} := {digit};", names[i % nd.min(names.len())]));
+        }
+        lines.push("END_PROGRAM".into());
     } else if kind == 4 {
         *out_kind = "doc-long";
         let n = 8 + r.below(20);
@@ -596,6 +614,21 @@ fn insert_text(r: &mut Rng, cat: Cat, eol: Eol) -> String {
         4 => format!("(* {} *)", uni1(r, cat)),
         5 => uni1(r, cat),
         _ => uni(r, cat, 4),
+    }
+}
+
+/// Delete a whole line, or insert a copy of it in front of itself.
+fn gen_line_change(r: &mut Rng, ed: &Editor) -> (Chg, &'static str) {
+    let lines = ed.lines();
+    let nl = lines.len() as u32;
+    let l = r.below(nl as u64) as u32;
+    let (start, len, term) = lines[l as usize];
+    if l + 1 < nl && r.bool() {
+        (Chg::Range { sl: l, sc: 0, el: l + 1, ec: 0, text: String::new() }, "chg-delete-line")
+    } else {
+        let copy = String::from_utf16_lossy(&ed.u[start..start + len + term]);
+        let copy = if term == 0 { format!("{copy}\n") } else { copy };
+        (Chg::Range { sl: l, sc: 0, el: l, ec: 0, text: copy }, "chg-duplicate-line")
     }
 }
 
@@ -792,6 +825,8 @@ enum Step {
     Spurious,
     Close,
     Open(String),
+    /// willRenameFiles + move + didRenameFiles + the watcher's DELETED/CREATED pair; URI number
+    Rename(usize),
 }
 
 fn notes(v: Vec<Vec<Chg>>) -> Vec<Step> {
@@ -878,6 +913,39 @@ fn corpus() -> Vec<Fixed> {
             disk: Some(None),
             steps: vec![Step::Change(vec![rg(0, 11, 0, 11, "er")]), Step::Save, Step::Change(vec![rg(0, 13, 0, 13, "!")]),
                         Step::Rewrite("PROGRAM Elsewhere\nEND_PROGRAM\n".into())],
+        },
+        // an open dirty buffer is renamed (the POU follows the file name), the watcher reports the
+        // move with the stale disk text, the editor keeps editing under the new URI; then back,
+        // and onto the path of a sibling file
+        Fixed {
+            name: "rename-open-dirty",
+            text: "PROGRAM main\nVAR x : INT; END_VAR\nx := 1;\nEND_PROGRAM\n",
+            disk: Some(Some("PROGRAM main\nVAR x : INT; END_VAR\nx := 1;\nEND_PROGRAM\n")),
+            steps: vec![
+                Step::Change(vec![rg(2, 5, 2, 6, "2")]),
+                Step::Rename(3),
+                Step::Change(vec![rg(2, 5, 2, 6, "3")]),
+                Step::Rename(0),
+                Step::Change(vec![rg(2, 5, 2, 6, "4")]),
+                Step::Rename(1),
+                Step::Change(vec![rg(2, 5, 2, 6, "5")]),
+                Step::Close,
+                Step::Rename(4),
+                Step::Rewrite("PROGRAM Other\nEND_PROGRAM\n".into()),
+            ],
+        },
+        // semanticTokens/full/delta: one of several look-alike lines is deleted / duplicated
+        Fixed {
+            name: "delta-lookalike-lines",
+            text: "PROGRAM P\nVAR\n    a : INT;\n    b : INT;\n    c : INT;\nEND_VAR\na := 1;\nb := 1;\nc := 1;\nEND_PROGRAM\n",
+            disk: None,
+            steps: notes(vec![
+                vec![rg(3, 0, 4, 0, "")],
+                vec![rg(6, 0, 7, 0, "")],
+                vec![rg(2, 0, 2, 0, "    d : INT;\n")],
+                vec![rg(6, 0, 6, 0, "a := 1;\na := 1;\n")],
+                vec![rg(6, 0, 8, 0, "")],
+            ]),
         },
         // the defect repaired by /repo 9240ec7: the file is deleted while the document is open and
         // the server used to drop the document
@@ -1324,6 +1392,10 @@ struct Plan {
     notes: u64,
     /// file-backed document in a temporary workspace folder: the initial content of the file
     disk: Option<Option<String>>,
+    /// the editor keeps its semantic tokens current with `semanticTokens/full/delta`
+    delta: bool,
+    /// a document made of runs of look-alike lines: whole lines are deleted and duplicated
+    runs: bool,
 }
 
 /// A second program that calls into the sibling files of the workspace, so that answers about the
@@ -1362,6 +1434,8 @@ fn plan_case(seed: u64, n: u64, max_notes: u64) -> (Plan, Rng) {
             fixed: Some(f.steps.clone()),
             notes: f.steps.len() as u64,
             disk: f.disk.map(|d| d.map(str::to_string)),
+            delta: true,
+            runs: false,
         };
         return (plan, r);
     }
@@ -1403,7 +1477,12 @@ fn plan_case(seed: u64, n: u64, max_notes: u64) -> (Plan, Rng) {
     }
     let version = if r.chance(1, 10) { r.range(-3, 1000) as i32 } else { 1 };
     let notes = 1 + r.below(max_notes);
-    (Plan { tags, cat, eol, text, version, pull, burst, fixed: None, notes, disk }, r)
+    let runs = kind == "doc-runs";
+    let delta = !burst && (runs || r.chance(2, 5));
+    if delta {
+        tags.push("delta-client".into());
+    }
+    (Plan { tags, cat, eol, text, version, pull, burst, fixed: None, notes, disk, delta, runs }, r)
 }
 
 /// Sessions that ended with a dead or silent server; after a few of them the run stops early (the
@@ -1468,30 +1547,45 @@ fn attempt_case(bin: &str, seed: u64, n: u64, max_notes: u64) -> CaseOut {
     CaseOut { lines, stats, error }
 }
 
+/// File names of a workspace case; the index is the URI number of the line protocol.  The case
+/// starts on `main.st`; `lib0.st`/`lib1.st` are the sibling files; the rest are rename targets.
+const NAMES: [&str; 5] = ["main.st", "lib0.st", "lib1.st", "renamed.st", "Other.st"];
+
 /// The files of a workspace case as the harness left them on disk.
 struct Ws {
     root: std::path::PathBuf,
-    main: Option<String>,
-    siblings: Vec<Option<String>>,
+    files: Vec<Option<String>>,
+    /// URI number of the document the case follows
+    cur: usize,
 }
 
 impl Ws {
-    fn main_path(&self) -> std::path::PathBuf {
-        self.root.join("main.st")
+    fn path(&self, id: usize) -> std::path::PathBuf {
+        self.root.join(NAMES[id])
     }
-    fn sibling_path(&self, j: usize) -> std::path::PathBuf {
-        self.root.join(format!("lib{j}.st"))
+    fn uri(&self, id: usize) -> String {
+        format!("file://{}", self.path(id).display())
     }
-    fn sibling_uri(&self, j: usize) -> String {
-        format!("file://{}", self.sibling_path(j).display())
+    fn main(&self) -> &Option<String> {
+        &self.files[self.cur]
+    }
+    fn write(&mut self, id: usize, text: &str) {
+        std::fs::write(self.path(id), text).expect("write file");
+        self.files[id] = Some(text.to_string());
     }
     fn write_main(&mut self, text: &str) {
-        std::fs::write(self.main_path(), text).expect("write main.st");
-        self.main = Some(text.to_string());
+        self.write(self.cur, text);
+    }
+    fn delete(&mut self, id: usize) {
+        let _ = std::fs::remove_file(self.path(id));
+        self.files[id] = None;
     }
     fn delete_main(&mut self) {
-        let _ = std::fs::remove_file(self.main_path());
-        self.main = None;
+        self.delete(self.cur);
+    }
+    /// URI numbers of the sibling files (the followed document may have been renamed onto one)
+    fn siblings(&self) -> Vec<usize> {
+        [1usize, 2].into_iter().filter(|&i| i != self.cur).collect()
     }
 }
 
@@ -1508,12 +1602,109 @@ struct Sess<'a> {
     ws: Option<Ws>,
     lone_cr_seen: bool,
     deleted_while_open: bool,
+    /// ops of other URIs whose watcher event has not been sent yet
+    pending: Vec<(usize, String)>,
+    /// the `semanticTokens/full/delta` client: the result id and token array the editor holds
+    delta: bool,
+    held: Option<(String, Vec<u32>)>,
+}
+
+fn u32s(v: &Value) -> Vec<u32> {
+    v.as_array().map(|a| a.iter().filter_map(|x| x.as_u64().map(|n| n as u32)).collect()).unwrap_or_default()
+}
+
+fn csv(v: &[u32]) -> String {
+    if v.is_empty() {
+        "-".into()
+    } else {
+        v.iter().map(|x| x.to_string()).collect::<Vec<_>>().join(",")
+    }
 }
 
 impl Sess<'_> {
     fn observe(&mut self) -> Result<(), String> {
         self.server = doc_state(&mut self.l, &self.uri)?;
         self.lines.push(impl_line(&self.server, &self.ed));
+        Ok(())
+    }
+    /// State of another URI (never open in the editor).
+    fn observe_at(&mut self, id: usize, op: &str) -> Result<(), String> {
+        let uri = self.ws.as_ref().expect("workspace case").uri(id);
+        self.lines.push(format!("at {id} {op}"));
+        let st = doc_state(&mut self.l, &uri)?;
+        let ed = if matches!(self.ed, EdState::Undefined) { EdState::Undefined } else { EdState::Closed };
+        self.lines.push(impl_line(&st, &ed));
+        Ok(())
+    }
+    /// The editor keeps its tokens up to date with `semanticTokens/full/delta`: ask for the delta
+    /// against what it holds, apply the edits, and compare with the server's full answer.
+    fn delta_step(&mut self) -> Result<(), String> {
+        if !self.delta {
+            return Ok(());
+        }
+        let td = json!({"uri": self.uri});
+        if self.server.is_none() {
+            self.held = None;
+            return Ok(());
+        }
+        if let Some((id, held)) = self.held.clone() {
+            let ans = self.l.request(
+                "textDocument/semanticTokens/full/delta",
+                json!({"textDocument": td, "previousResultId": id}),
+            )?;
+            let mut now = held.clone();
+            let mut impl_edits: Option<Vec<String>> = None;
+            if let Some(edits) = ans.get("edits").and_then(Value::as_array) {
+                let mut shown = Vec::new();
+                for e in edits {
+                    let start = e["start"].as_u64().unwrap_or(0) as usize;
+                    let del = e["deleteCount"].as_u64().unwrap_or(0) as usize;
+                    let data = u32s(&e["data"]);
+                    shown.push(format!("{start} {del} {}", csv(&data)));
+                    if start > now.len() || start + del > now.len() {
+                        self.lines.push(format!("# oracle tokens-delta FAIL edit start={start} deleteCount={del} outside the held array of {}", now.len()));
+                        self.held = None;
+                        return Ok(());
+                    }
+                    now.splice(start..start + del, data);
+                }
+                impl_edits = Some(shown);
+                self.stats.push("delta-answers-edits:1".into());
+            } else if ans.get("data").is_some() {
+                now = u32s(&ans["data"]);
+                self.stats.push("delta-answers-full:1".into());
+            } else {
+                self.held = None;
+                return Ok(());
+            }
+            let full = self.l.request("textDocument/semanticTokens/full", json!({"textDocument": td}))?;
+            let want = u32s(&full["data"]);
+            if now == want {
+                self.lines.push(format!("# oracle tokens-delta ok n={}", want.len() / 5));
+            } else {
+                self.lines.push(format!(
+                    "# oracle tokens-delta FAIL after-delta={} full={} held={}",
+                    now.len() / 5,
+                    want.len() / 5,
+                    held.len() / 5
+                ));
+            }
+            // tie of `semantic_tokens_delta_edits` to the model
+            if let Some(shown) = impl_edits {
+                if held.len() <= 1500 && want.len() <= 1500 {
+                    self.lines.push(format!("delta {} {}", csv(&held), csv(&want)));
+                    self.lines.push(format!("impl {}", if shown.is_empty() { "none".to_string() } else { shown.join(" ; ") }));
+                    self.stats.push("delta-ops:1".into());
+                    if want.len() < held.len() {
+                        self.stats.push("delta-ops-shrinking:1".into());
+                    }
+                }
+            }
+            self.held = full.get("resultId").and_then(Value::as_str).map(|id| (id.to_string(), want));
+        } else {
+            let full = self.l.request("textDocument/semanticTokens/full", json!({"textDocument": td}))?;
+            self.held = full.get("resultId").and_then(Value::as_str).map(|id| (id.to_string(), u32s(&full["data"])));
+        }
         Ok(())
     }
     fn open(&mut self, text: &str, version: i32) -> Result<(), String> {
@@ -1595,33 +1786,135 @@ impl Sess<'_> {
     }
     fn watched(&mut self, changes: &[(String, u8)]) -> Result<(), String> {
         let arr: Vec<Value> = changes.iter().map(|(u, t)| json!({"uri": u, "type": t})).collect();
-        self.l.notify("workspace/didChangeWatchedFiles", json!({ "changes": arr }))
+        self.l.notify("workspace/didChangeWatchedFiles", json!({ "changes": arr }))?;
+        // several events for one file in one notification: the server reads the disk when it
+        // handles each of them, so what is observable is the effect of the last one
+        let pending = std::mem::take(&mut self.pending);
+        for (k, (id, op)) in pending.iter().enumerate() {
+            if pending[k + 1..].iter().any(|(later, _)| later == id) {
+                continue;
+            }
+            self.observe_at(*id, op)?;
+        }
+        Ok(())
     }
     /// A change of a sibling file on disk that rides in the same watcher notification.
     fn sibling_event(&mut self, r: &mut Rng) -> Option<(String, u8)> {
         let ws = self.ws.as_mut()?;
-        let j = r.below(ws.siblings.len() as u64) as usize;
-        let uri = ws.sibling_uri(j);
-        if ws.siblings[j].is_some() && r.chance(1, 3) {
-            let _ = std::fs::remove_file(ws.sibling_path(j));
-            ws.siblings[j] = None;
-            self.lines.push(format!("# sibling lib{j}.st deleted"));
+        let sibs = ws.siblings();
+        let id = *r.pick(&sibs);
+        let uri = ws.uri(id);
+        if ws.files[id].is_some() && r.chance(1, 3) {
+            ws.delete(id);
+            self.pending.push((id, "wdel".into()));
             self.stats.push("ev-sibling-deleted:1".into());
             Some((uri, 3))
         } else {
-            let existed = ws.siblings[j].is_some();
-            let text = sibling_text(j, r.below(9));
-            std::fs::write(ws.sibling_path(j), &text).expect("write sibling");
-            ws.siblings[j] = Some(text);
-            self.lines.push(format!("# sibling lib{j}.st written"));
+            let existed = ws.files[id].is_some();
+            let text = sibling_text(id - 1, r.below(9));
+            ws.write(id, &text);
+            self.pending.push((id, format!("wchg {}", hex(text.as_bytes()))));
             self.stats.push("ev-sibling-written:1".into());
             Some((uri, if existed { 2 } else { 1 }))
         }
     }
+    /// `workspace/willRenameFiles` + the move on disk + `workspace/didRenameFiles` (+ the
+    /// watcher's DELETED/CREATED pair): the document is followed to URI number `to`.
+    fn rename(&mut self, to: usize, will: bool, watcher: bool, r: &mut Rng) -> Result<(), String> {
+        let (old, old_uri, new_uri) = {
+            let ws = self.ws.as_ref().expect("workspace case");
+            (ws.cur, ws.uri(ws.cur), ws.uri(to))
+        };
+        if old == to {
+            return Ok(());
+        }
+        let files = json!({"files": [{"oldUri": old_uri, "newUri": new_uri}]});
+        if will && self.server.is_some() {
+            let ans = self.l.request("workspace/willRenameFiles", files.clone())?;
+            // the answer renames the POU inside the still open buffer: its positions are positions
+            // of the editor's text, and the editor applies it
+            let mut edits: Vec<(u32, u32, u32, u32, String)> = Vec::new();
+            let mut collect = |arr: &Value| {
+                for e in arr.as_array().into_iter().flatten() {
+                    let rg = &e["range"];
+                    if let (Some(a), Some(b), Some(c), Some(d), Some(t)) = (
+                        rg["start"]["line"].as_u64(),
+                        rg["start"]["character"].as_u64(),
+                        rg["end"]["line"].as_u64(),
+                        rg["end"]["character"].as_u64(),
+                        e["newText"].as_str(),
+                    ) {
+                        edits.push((a as u32, b as u32, c as u32, d as u32, t.to_string()));
+                    }
+                }
+            };
+            if let Some(ch) = ans.get("changes").and_then(|c| c.get(&old_uri)) {
+                collect(ch);
+            }
+            for dc in ans.get("documentChanges").and_then(Value::as_array).into_iter().flatten() {
+                if dc["textDocument"]["uri"].as_str() == Some(old_uri.as_str()) {
+                    collect(&dc["edits"]);
+                }
+            }
+            self.stats.push(format!("will-rename-edits:{}", edits.len()));
+            if let (EdState::Open(e, v), false) = (&self.ed, edits.is_empty()) {
+                let bad = edits.iter().find(|x| {
+                    let (a, b) = (e.offset(x.0, x.1), e.offset(x.2, x.3));
+                    !matches!((a, b), (Some(p), Some(q)) if p <= q && e.boundary(p) && e.boundary(q))
+                });
+                match bad {
+                    Some(x) => self.lines.push(format!("# oracle positions-will-rename FAIL ({},{})-({},{})", x.0, x.1, x.2, x.3)),
+                    None => {
+                        self.lines.push(format!("# oracle positions-will-rename ok n={}", edits.len()));
+                        // text edits of one answer refer to the same text: apply from the end
+                        edits.sort_by(|x, y| (y.0, y.1).cmp(&(x.0, x.1)));
+                        let changes: Vec<Chg> = edits
+                            .iter()
+                            .map(|x| Chg::Range { sl: x.0, sc: x.1, el: x.2, ec: x.3, text: x.4.clone() })
+                            .collect();
+                        let version = v.wrapping_add(1);
+                        self.change(&changes, version, false)?;
+                    }
+                }
+            }
+        }
+        // the client moves the file, then tells the server
+        let disk_new = {
+            let ws = self.ws.as_mut().expect("workspace case");
+            if ws.files[old].is_some() {
+                std::fs::rename(ws.path(old), ws.path(to)).expect("move file");
+                ws.files[to] = ws.files[old].take();
+            }
+            ws.cur = to;
+            ws.files[to].clone()
+        };
+        self.l.notify("workspace/didRenameFiles", files)?;
+        self.uri = new_uri.clone();
+        self.held = None;
+        self.lines.push(format!("ren {to} {}", disk_new.as_ref().map(|t| hex(t.as_bytes())).unwrap_or_else(|| "!".into())));
+        self.stats.push(format!("ev-rename{}:1", if matches!(self.ed, EdState::Open(..)) { "-open" } else { "-closed" }));
+        if to == 1 || to == 2 {
+            self.stats.push("ev-rename-onto-sibling:1".into());
+        }
+        self.observe()?;
+        self.observe_at(old, "peek")?;
+        if watcher {
+            // what the file watcher makes of the move
+            // (ops are queued in the order of the events on the wire)
+            self.pending.push((old, "wdel".into()));
+            let with = if r.chance(1, 4) { self.sibling_event(r) } else { None };
+            let mut ev = vec![(old_uri, 3u8), (new_uri, 1u8)];
+            ev.extend(with);
+            self.watched(&ev)?;
+            self.lines.push(format!("wchg {}", disk_new.map(|t| hex(t.as_bytes())).unwrap_or_else(|| "!".into())));
+            self.observe()?;
+        }
+        Ok(())
+    }
     /// Somebody rewrites the document's file; the watcher reports it.
     fn rewrite(&mut self, text: &str, with: Option<(String, u8)>) -> Result<(), String> {
         let ws = self.ws.as_mut().expect("workspace case");
-        let typ = if ws.main.is_some() { 2 } else { 1 };
+        let typ = if ws.main().is_some() { 2 } else { 1 };
         ws.write_main(text);
         let mut ev = vec![(self.uri.clone(), typ)];
         ev.extend(with);
@@ -1649,8 +1942,8 @@ impl Sess<'_> {
     /// A CHANGED event although the file is not there.
     fn spurious(&mut self) -> Result<(), String> {
         let ws = self.ws.as_mut().expect("workspace case");
-        if ws.main.is_some() {
-            let text = ws.main.clone().unwrap();
+        if ws.main().is_some() {
+            let text = ws.main().clone().unwrap();
             self.watched(&[(self.uri.clone(), 2)])?;
             self.lines.push(format!("wchg {}", hex(text.as_bytes())));
         } else {
@@ -1665,7 +1958,7 @@ impl Sess<'_> {
         let EdState::Open(e, _) = &self.ed else { return Ok(()) };
         let text = e.text();
         let ws = self.ws.as_mut().expect("workspace case");
-        let typ = if ws.main.is_some() { 2 } else { 1 };
+        let typ = if ws.main().is_some() { 2 } else { 1 };
         ws.write_main(&text);
         self.l.notify("textDocument/didSave", json!({"textDocument": {"uri": self.uri}, "text": text}))?;
         self.lines.push("save".into());
@@ -1679,6 +1972,8 @@ impl Sess<'_> {
         Ok(())
     }
     fn token_tie(&mut self, pull: bool, r: &mut Rng) -> Result<(), String> {
+        // asks for full tokens: what the delta client holds is stale afterwards
+        self.held = None;
         if let Some((t, _)) = self.server.clone() {
             let a = ask_all(&mut self.l, &self.uri, pull)?;
             token_ops(self.lines, self.stats, &t, &a, r);
@@ -1699,21 +1994,20 @@ fn session(
     // the workspace as the server finds it
     let mut ws = None;
     if let (Some(root), Some(disk)) = (root, &plan.disk) {
-        let mut w = Ws { root: root.to_path_buf(), main: None, siblings: vec![None, None] };
+        let mut w = Ws { root: root.to_path_buf(), files: vec![None; NAMES.len()], cur: 0 };
         if let Some(text) = disk {
             w.write_main(text);
         }
-        for j in 0..w.siblings.len() {
+        for id in [1usize, 2] {
             if plan.fixed.is_some() || r.chance(3, 4) {
-                let text = sibling_text(j, if plan.fixed.is_some() { 0 } else { r.below(9) });
-                std::fs::write(w.sibling_path(j), &text).expect("write sibling");
-                w.siblings[j] = Some(text);
+                let text = sibling_text(id - 1, if plan.fixed.is_some() { 0 } else { r.below(9) });
+                w.write(id, &text);
             }
         }
         ws = Some(w);
     }
     let uri = match &ws {
-        Some(w) => format!("file://{}", w.main_path().display()),
+        Some(w) => w.uri(0),
         None => format!("file:///c14/case{n}.st"),
     };
     let root_str = root.map(|p| p.display().to_string());
@@ -1729,6 +2023,9 @@ fn session(
         ws,
         lone_cr_seen: false,
         deleted_while_open: false,
+        pending: Vec::new(),
+        delta: plan.delta,
+        held: None,
     };
     let result = drive(bin, plan, root_str.as_deref(), r, &mut s);
     s.l.shutdown();
@@ -1742,7 +2039,15 @@ fn drive(bin: &str, plan: &Plan, root: Option<&str>, r: &mut Rng, s: &mut Sess) 
         s.lines.push(format!("wchg {}", hex(disk.as_bytes())));
         s.observe()?;
     }
+    if let Some(w) = &s.ws {
+        let sib: Vec<(usize, String)> =
+            w.siblings().into_iter().filter_map(|id| w.files[id].clone().map(|t| (id, t))).collect();
+        for (id, text) in sib {
+            s.observe_at(id, &format!("wchg {}", hex(text.as_bytes())))?;
+        }
+    }
     s.open(&plan.text, version)?;
+    s.delta_step()?;
     let mut nontrivial = false;
     let mut astral = false;
     let mut after_undefined = 0;
@@ -1764,7 +2069,14 @@ fn drive(bin: &str, plan: &Plan, root: Option<&str>, r: &mut Rng, s: &mut Sess) 
                     version += 1;
                     s.open(t, version)?;
                 }
+                Step::Rename(to) => {
+                    s.rename(*to, true, true, r)?;
+                    if let EdState::Open(_, v) = &s.ed {
+                        version = *v;
+                    }
+                }
             }
+            s.delta_step()?;
             continue;
         }
         // once the editor-side specification is undefined only the model tie is left: two more
@@ -1806,15 +2118,29 @@ fn drive(bin: &str, plan: &Plan, root: Option<&str>, r: &mut Rng, s: &mut Sess) 
                         s.spurious()?;
                     }
                 }
-                13 | 14 => {
+                13 => {
                     if let Some(ev) = with {
                         s.watched(&[ev])?;
                     }
                     s.spurious()?
                 }
+                14 | 17 => {
+                    if let Some(ev) = with {
+                        s.watched(&[ev])?;
+                    }
+                    // the file is renamed: to a new name, back, or onto the path of a sibling
+                    let cur = s.ws.as_ref().map(|w| w.cur).unwrap_or(0);
+                    let to = *r.pick(&[0usize, 3, 3, 4, 1, 2]);
+                    if to != cur {
+                        s.rename(to, r.chance(2, 3), r.chance(3, 4), r)?;
+                        if let EdState::Open(_, v) = &s.ed {
+                            version = *v;
+                        }
+                    }
+                }
                 15 | 16 => {
                     // deleting the file, also while the document is open (the buffer outlives it)
-                    if s.ws.as_ref().is_some_and(|w| w.main.is_some()) && (!open || r.chance(3, 4)) {
+                    if s.ws.as_ref().is_some_and(|w| w.main().is_some()) && (!open || r.chance(3, 4)) {
                         s.delete(with)?;
                     } else if let Some(ev) = with {
                         s.watched(&[ev])?;
@@ -1834,6 +2160,7 @@ fn drive(bin: &str, plan: &Plan, root: Option<&str>, r: &mut Rng, s: &mut Sess) 
             if r.chance(1, 3) {
                 s.token_tie(plan.pull, r)?;
             }
+            s.delta_step()?;
         }
         // close / re-open now and then
         if r.chance(1, if workspace { 15 } else { 40 }) {
@@ -1847,7 +2174,7 @@ fn drive(bin: &str, plan: &Plan, root: Option<&str>, r: &mut Rng, s: &mut Sess) 
             if r.chance(7, 8) {
                 let mut kd: &'static str = "";
                 // re-open: the file's content (what an editor shows), the old buffer, or a new text
-                let text = match (r.below(3), s.ws.as_ref().and_then(|w| w.main.clone())) {
+                let text = match (r.below(3), s.ws.as_ref().and_then(|w| w.main().clone())) {
                     (0, Some(disk)) | (1, Some(disk)) => disk,
                     (0, None) => s.gen_buf.text(),
                     _ => gen_text(r, plan.cat, plan.eol, &mut kd),
@@ -1864,7 +2191,12 @@ fn drive(bin: &str, plan: &Plan, root: Option<&str>, r: &mut Rng, s: &mut Sess) 
         let nch = if r.chance(1, 300) { 0 } else if r.chance(7, 10) { 1 } else { 2 + r.below(3) };
         let mut scratch = s.gen_buf.clone();
         for _ in 0..nch {
-            let (c, validity, kind) = gen_change(r, &scratch, plan.cat, plan.eol, !plan.burst);
+            let (c, validity, kind) = if (plan.runs && r.chance(2, 3)) || (plan.delta && r.chance(1, 8)) {
+                let (c, kind) = gen_line_change(r, &scratch);
+                (c, Validity::Valid, kind)
+            } else {
+                gen_change(r, &scratch, plan.cat, plan.eol, !plan.burst)
+            };
             s.stats.push(format!("{kind}:1"));
             let stop = validity != Validity::Valid;
             if let Chg::Range { sl, sc, .. } = &c {
@@ -1896,6 +2228,7 @@ fn drive(bin: &str, plan: &Plan, root: Option<&str>, r: &mut Rng, s: &mut Sess) 
         if quiet {
             continue;
         }
+        s.delta_step()?;
         // mid-session token tie now and then
         if r.chance(1, 8) {
             s.token_tie(plan.pull, r)?;
